@@ -257,9 +257,9 @@ def run(facts, prop=None):
                 res.ok(key, loc, "sig=%s%s" % (sorted(got), " via " + ",".join(d for d, _ in s.delegates) if s.delegates else ""),
                        nontrivial=bool(s.delegates) or ty in ("uint", "int"))
     if prop != "C11":
-        res.floor("typed_getters", n_get, 76)
+        res.floor("typed_getters", n_get, 70)
     if prop != "C10":
-        res.floor("typed_putters", n_put, 38)
+        res.floor("typed_putters", n_put, 34)
     return res
 
 
